@@ -29,6 +29,9 @@ def gen_case(seed: int, tier: str, index: int, base_gen) -> Dict[str, Any]:
         op["gap"] = min(op["gap"], 3.0)
         op.pop("sync", None)
         op["overlap"] = False
+        if op["op"].startswith("watercare") and rng.random() < 0.6:
+            # made in the very moment the facade's update thread has a watercare poll in flight (its stale answer arrives after the command)
+            op["behind_poll"] = True
     c["plan"] = plan
     return c
 
@@ -78,6 +81,10 @@ def scenario(world: WorldT) -> None:
             raise HarnessError("blocking connection was lost on a benign network")
         if op["gap"]:
             world.sleep(op["gap"])
+        if op.get("behind_poll"):
+            n0 = sum(1 for r in world.net.history if r.verb == "GETWC" and r.src[0] != SPA_IP)
+            if world.wait_until(lambda: sum(1 for r in world.net.history if r.verb == "GETWC" and r.src[0] != SPA_IP) > n0, 40.0, step=0.005):
+                res.probe("blocking_watercare_command_while_a_poll_is_in_flight")
         mark = len(model.commands)
         built = build_command(op, ci, facade, spa, res, cfg["snapshot"], sync=True, model=model)
         if built is None:
